@@ -14,7 +14,7 @@ Require Import SDS.Model.Mach SDS.Model.Raw SDS.Model.IntVec SDS.Model.BitVec SD
 Require Import SDS.Model.Sparse SDS.Model.RL SDS.Model.WM.
 Require Import SDS.Spec.BitSeq SDS.Spec.Utf8 SDS.Spec.Runs.
 Require Import SDS.Proofs.RawProof SDS.Proofs.IntVecProof.
-Require SDS.Spec.Format SDS.Proofs.FormatProof SDS.Proofs.FormatRL SDS.Proofs.FormatConform.
+Require SDS.Spec.Format SDS.Proofs.FormatProof SDS.Proofs.FormatRL SDS.Proofs.FormatWM SDS.Proofs.FormatConform.
 Import ListNotations.
 Open Scope N_scope.
 Module F := SDS.Spec.Format.
@@ -96,16 +96,24 @@ Theorem C07_doc_roundtrip_rl : forall len runs,
 Proof. exact FormatRL.roundtrip_rl. Qed.
 Print Assumptions C07_doc_roundtrip_rl.
 
-(* wavelet matrices: stated (see "partial"); instances are evaluated below and by every READ case of the
-   correspondence run (the harness' file must equal doc_encode and be doc_valid) *)
-Definition C07_doc_roundtrip_wmcore_statement : Prop := forall width items,
+(* wavelet matrix cores: any width 1..64 that holds the items (the crate's constructor picks the minimal one);
+   the reader's level mapping (rank_zero / count_zeros + rank) inverts the writer's stable partition by bit *)
+Theorem C07_doc_roundtrip_wmcore : forall width items,
   1 <= width <= 64 -> F.lenN items < 2 ^ 64 -> Forall (fun v => v < 2 ^ width) items ->
   F.doc_valid_wmcore (F.doc_encode_wmcore (width, items)) = true /\
   F.doc_content_wmcore (F.doc_encode_wmcore (width, items)) = Some (width, items).
-Definition C07_doc_roundtrip_wm_statement : Prop := forall width items,
-  1 <= width <= 64 -> F.lenN items < 2 ^ 63 -> Forall (fun v => v < 2 ^ width) items ->
+Proof. exact FormatWM.roundtrip_wmcore. Qed.
+Print Assumptions C07_doc_roundtrip_wmcore.
+
+(* plain wavelet matrices: first[] as the first occurrence in the reordered vector (len if absent) over the alphabet
+   0..=max, minimally packed; the alphabet must fit one integer vector (max + 1 < 2^58) *)
+Theorem C07_doc_roundtrip_wm : forall width items,
+  1 <= width <= 64 -> F.lenN items < 2 ^ 64 -> Forall (fun v => v < 2 ^ width) items ->
+  F.alphabet_size items * 64 < 2 ^ 64 ->
   F.doc_valid_wm (F.doc_encode_wm (width, items)) = true /\
   F.doc_content_wm (F.doc_encode_wm (width, items)) = Some (width, items).
+Proof. exact FormatWM.roundtrip_wm. Qed.
+Print Assumptions C07_doc_roundtrip_wm.
 
 (* ================================================================== (b) the model's files conform *)
 
@@ -183,8 +191,8 @@ Example C07_sparse_instance :
   F.doc_valid_bv [2; 3; 1; 7; 0; 0; 0] = false.
 Proof. vm_compute. repeat split. Qed.
 
-(* the stated round trips and the stated conformance of the early composite models hold on instances with
-   several blocks, padding, a full final block, missing values *)
+(* instances with several blocks, padding, a full final block, missing values; the stated conformance of the early
+   composite models holds on instances *)
 Example C07_rl_instances :
   let many := map (fun i => (3 * i + 1, 2)) (F.nrange 100 0) in
   let long := [(0, 1); (5, 1000000); (2 ^ 40, 2 ^ 33); (2 ^ 50, 7)] in
